@@ -189,7 +189,7 @@ func specialLayers(tier string) []Layer {
 			zps := []uint32{0, 3, 40}
 			if thorough {
 				zps = []uint32{0, 1, 3, 19, 20, 40}
-				p1Stale = []int8{0, 1, 2, 3, 4}
+				p1Stale = []int8{0, 1, 2, 3, 4, 5}
 			}
 			for _, zp := range zps {
 				for _, m := range M6 {
